@@ -17,13 +17,19 @@ CLAIMED = {
         technique="deterministic simulation in a synctest bubble: real imgbundler over a simulated HTTP transport and syscall-level file-system fault points; the seeded scheduler decides worker start/completion order, every I/O outcome, stalls, timeouts and caller cancellation; output and error are compared with a sequential reference bundler",
         text="Seeded exploration of worker interleavings x failure subsets x inputs with exact replay. Small image counts (<=3) are visited often enough to cover all completion orders and failure subsets; larger ones (up to 40, beyond the 16-worker semaphore) are sampled. Sampling, not proof.",
         note="Trusted: the reference bundler (eligibility = not data:, http(s) for remote), testing/synctest's fake clock, the std overlay. Worker goroutines run real code; only their park points are owned by the simulator, certified by the per-run determinism re-execution."),
+    "C44": dict(engine="watchsim", cat="exploration", ref="5.1",
+        technique="deterministic simulation: the real `d2 --watch` (watcher, compile loop, HTTP and WebSocket server) runs in a synctest bubble against simulated editor, inotify, network and browsers; a seeded scheduler owns 21 park points in watch.go, every actor step and the clock; per-client result order and final delivery are checked over the recorded history",
+        text="Seeded exploration of interleavings of file changes, compile-loop steps, client connections/disconnections and client write loops with exact replay; bounded liveness (latest content compiled and delivered to every connected client within 60 simulated seconds once the input stops changing and faults stop). Sampling, not proof; thousands of distinct schedules per quick run.",
+        note="Trusted: testing/synctest's fake clock and quiescence detection, the std overlay, the simulated inotify semantics (DESIGN.md §3.5), the version extraction from delivered SVGs. Goroutines run real code between park points; the per-run determinism re-execution certifies that what the simulator does not own does not matter."),
+    "C45": dict(engine="watchsim", cat="exploration", ref="5.1",
+        technique="deterministic simulation: same engine as C44 with the operator's signal injected at tape-chosen points, slow/stalled browser handshakes and a stalled-request-handler fault steered into the shutdown window; admission/handler/close events are checked over the recorded history, plus a leaked-goroutine oracle at the end of the bubble",
+        text="Seeded exploration of connection/registration/write-loop/heartbeat/shutdown interleavings with exact replay. Checks that close() returns only when every started handler has exited, that nothing is admitted after close began, that shutdown completes without xmain's forced exit, no panic and no leaked d2cli goroutine. Sampling, not proof.",
+        note="Trusted: as C44. The order of ws.admitted/close.begin trace events is the lock order because both are emitted under the client mutex."),
 }
 
 PENDING = {
  "C08": "simulation target per DESIGN.md §5.5 (pipesim); its check is still under construction and therefore not claimed yet",
  "C25": "simulation target per DESIGN.md §5.6 (pipesim); its check is still under construction and therefore not claimed yet",
- "C44": "simulation target per DESIGN.md §5.1 (watchsim); its check is still under construction and therefore not claimed yet",
- "C45": "simulation target per DESIGN.md §5.1 (watchsim); its check is still under construction and therefore not claimed yet",
 }
 
 NA_COMMON = "pure function of its input: the anchored code is synchronous, single-goroutine, reads no clock and does no fallible I/O, so there is no schedule, time or fault for a simulator to own"
